@@ -161,6 +161,11 @@ class Model:
         if op == "rev":
             t = self.eval(prog[1])
             return dataclasses.replace(t, rows=list(reversed(t.rows)))
+        if op == "alt":
+            t = self.eval(prog[1])
+            if not t.det:
+                raise Skip("nondeterministic_slice")  # which rows are "every other one" depends on the order
+            return dataclasses.replace(t, rows=list(t.rows[::2]))
         if op == "xfer":
             t = self.eval(prog[1])
             keep = t.det and not prog[2].startswith("sql") and (not self.ordered_engines or prog[2] in self.ordered_engines)
@@ -294,6 +299,8 @@ def show(prog) -> str:
         return f"{s}.cap({prog[2]})"
     if op == "rev":
         return f"{s}.rev()"
+    if op == "alt":
+        return f"{s}.alt()"
     if op == "xfer":
         return f"{s}.to({prog[2]})"
     return str(prog)
